@@ -191,7 +191,7 @@ func checkProperty(id string, thorough, verbose bool, replayFile string, timeout
 			timeout = 90
 		}
 	}
-	work := filepath.Join(verifDir, ".work", id)
+	work := filepath.Join(verifDir, ".work", fmt.Sprintf("%s-%d", id, os.Getpid())) // two runs of one check must not share query files
 	os.RemoveAll(work)
 	defer func() {
 		if !keep {
